@@ -163,7 +163,7 @@ Proof. split; eexists; vm_compute; reflexivity. Qed.
    commands; this is the same statement for the command forms whose String() is source syntax
    the parser accepts again: raw text, print, {log}, {debugger}, {let} in both forms,
    {if}/{elseif}/{else}, {for}/{ifempty}, {switch}/{case}/{default}, {call} with data="all" /
-   data="e" and {param k: e/} / {param k}..{/param}, {css}, nested to any depth).
+   data="e" and {param k: e/} / {param k}..{/param}, {css}, {msg} without {plural}, nested to any depth).
    Model/Parser.v's itemList (parse.go itemList / textOrTag / beginTag and the command parsers,
    same next/backup/peek order as the Go code), started in ANY parser state (inside or outside a
    {msg}: flag m) that delivers the items of a well-formed body followed by "{" and an item u
@@ -174,7 +174,9 @@ Proof. split; eexists; vm_compute; reflexivity. Qed.
    data="e" / {css e, x}: enough whenever some budget is), unq (strconv.Unquote inverts
    strconv.Quote on the printer model's domain); lexq (the nested scanner) enters through
    wf_body's clause quoted_ok: it reads the printed text of the expression as the expression's items.
-   Not covered: {msg} (with {plural}), templates, soydoc, namespace -- see notes/astprint-reparse.md. ---- *)
+   {msg meaning= desc=} with raw text, html tags and command placeholders is covered ({msg} reads its
+   body with tree.inmsg set and placeholderizes it; the theorem shows the children come back).
+   Not covered: {plural} inside {msg}, templates, soydoc, namespace -- see notes/astprint-reparse.md. ---- *)
 Theorem C17_parse_body_roundtrip_partial :
   forall (ns : bstr) (al : list (bstr * bstr)) (inlen : N) (lexq : bstr -> list tok) (unq : bstr -> option bstr) (efuel : list tok -> nat),
   (forall ts e rest, Parses 0 ts e rest -> exists p', parse_expr (efuel ts) 0 (pst_init ts) = POk e p') ->
@@ -221,11 +223,16 @@ Definition ex_body : node :=
             NCall 50 (b "ns.other") false (Some (NDataRef 2 (b "d") []))
                  [ NParamValue 51 (b "k") (NInt 52 1);
                    NParamContent 53 (b "c") (NList 0 [NCss 54 (Some (NDataRef 2 (b "d") [])) (b "suf")]) ];
-            NCall 60 (b "ns.third") true None [] ].
+            NCall 60 (b "ns.third") true None [];
+            NMsg 70 0 (b "verb") (b "greeting, imperative")
+                 [ NRawText 71 (b "Click "); NMsgPlaceholder 77 [] (NMsgHtmlTag 77 (b "<a href=x>"));
+                   NMsgPlaceholder 88 [] (NPrint 88 (NDataRef 88 (b "label") []) []);
+                   NMsgPlaceholder 89 [] (NMsgHtmlTag 89 (b "</a>")); NRawText 93 (b " now") ] ].
 
 Example C17_body_wf_nonvacuous : wf_body ex_lexq (nameok (b "ns") []) false ex_body.
 Proof.
-  cbn. unfold key_ok, float_ok, quoted_ok, call_name_ok, nameok, plain, no_byte.
+  cbn -[msg_raw_text rawtext_run go_quote print_node trim_space run_text run_pos split_dots].
+  unfold key_ok, float_ok, quoted_ok, call_name_ok, nameok, plain, no_byte, run_ok.
   repeat match goal with
          | H : _ :: _ = [] |- _ => discriminate H
          | |- _ /\ _ => split
@@ -240,7 +247,7 @@ Proof.
 Qed.
 
 Example C17_body_prints_nonvacuous :
-  print_tree ex_body = Some (b "Hi {$a|truncate:5}{if $a and not $b}x{elseif $c}{else}{debugger}{/if}{for $i in range(3)}{let $v: $i + 1 /}{$v}{ifempty}none{/for}{let $w}{log}in log{/log}{/let}{switch $k}{case 1,2}one{case }{css cls}{/switch}{call ns.other data=""$d""}{param k: 1/}{param c}{css $d, suf}{/param}{/call}{call ns.third data=""all""/}").
+  print_tree ex_body = Some (b "Hi {$a|truncate:5}{if $a and not $b}x{elseif $c}{else}{debugger}{/if}{for $i in range(3)}{let $v: $i + 1 /}{$v}{ifempty}none{/for}{let $w}{log}in log{/log}{/let}{switch $k}{case 1,2}one{case }{css cls}{/switch}{call ns.other data=""$d""}{param k: 1/}{param c}{css $d, suf}{/param}{/call}{call ns.third data=""all""/}{msg meaning=""verb"" desc=""greeting, imperative""}Click <a href=x>{$label}</a> now{/msg}").
 Proof. vm_compute. reflexivity. Qed.
 
 Example C17_body_roundtrip_nonvacuous :
